@@ -35,6 +35,10 @@ func runC03(p *core.Prog, r *core.Report) {
 	r.Rule("C03.R3", "child errors propagate: completions carry the child's own error; nested manifests are copied by digest with the child flag, tags without it; a failed blob transfer never reports success", 10)
 	c04R4(p, r, trav, "C03.R3")
 	c04R6(p, r, trav, "C03.R3")
+	// after a successful copy the target tag resolves to what was copied: the layout looks the tag up exactly before any loose match (shared with C06.R6)
+	c06R6(p, r, "C03.R14")
+	// a blob is skipped only when the target says it has it (shared with C09.R12)
+	headAsksRule(p, r, "C03.R15")
 	c03R4(p, r, "C03.R4")
 	c03R5(p, r, "C03.R5")
 	c03R7(p, r, "C03.R7")
